@@ -130,6 +130,11 @@ def callsOf (s : Sig) : List Tr → List (HRef × Option Nat)
   | .call h d s' :: tr => if s' = s then callsOf s tr ++ [(h, d)] else callsOf s tr
   | _ :: tr => callsOf s tr
 
+/-- the handler call for `s` that is the next instruction (pushed by `dispatch`, not yet executed), if any -/
+def pend (s : Sig) : List Instr → List (HRef × Option Nat)
+  | .callH h d s' :: _ => if s' = s then [(h, d)] else []
+  | _ => []
+
 /-- how often signal `s` was taken from a queue for dispatch -/
 def takeCount (s : Sig) : List Tr → Nat
   | [] => 0
